@@ -2,11 +2,23 @@ pub fn hex(bs: &[u8]) -> String {
     if bs.is_empty() {
         return "-".to_string();
     }
+    hex_raw(bs)
+}
+
+/// Lower-case hex, the empty byte string is the empty string.
+pub fn hex_raw(bs: &[u8]) -> String {
     let mut s = String::with_capacity(bs.len() * 2);
-    for b in bs {
-        s.push_str(&format!("{:02x}", b));
-    }
+    push_hex(&mut s, bs);
     s
+}
+
+pub fn push_hex(s: &mut String, bs: &[u8]) {
+    const DIGITS: &[u8; 16] = b"0123456789abcdef";
+    s.reserve(bs.len() * 2);
+    for b in bs {
+        s.push(DIGITS[(b >> 4) as usize] as char);
+        s.push(DIGITS[(b & 15) as usize] as char);
+    }
 }
 
 pub fn unhex(s: &str) -> Vec<u8> {
@@ -15,6 +27,49 @@ pub fn unhex(s: &str) -> Vec<u8> {
     }
     assert!(s.len() % 2 == 0, "odd hex");
     (0..s.len() / 2).map(|i| u8::from_str_radix(&s[2 * i..2 * i + 2], 16).expect("hex")).collect()
+}
+
+fn nibble(c: u8) -> Option<u8> {
+    match c {
+        b'0'..=b'9' => Some(c - b'0'),
+        b'a'..=b'f' => Some(c - b'a' + 10),
+        b'A'..=b'F' => Some(c - b'A' + 10),
+        _ => None,
+    }
+}
+
+/// Non-panicking hex decoder; the empty string decodes to the empty byte string
+/// (the `-` convention for whole fields is handled by the callers).
+pub fn unhex_checked(s: &str) -> Result<Vec<u8>, String> {
+    let b = s.as_bytes();
+    if b.len() % 2 != 0 {
+        return Err("odd-hex".to_string());
+    }
+    let mut out = Vec::with_capacity(b.len() / 2);
+    for pair in b.chunks(2) {
+        match (nibble(pair[0]), nibble(pair[1])) {
+            (Some(h), Some(l)) => out.push((h << 4) | l),
+            _ => return Err("bad-hex".to_string()),
+        }
+    }
+    Ok(out)
+}
+
+/// Whole-field byte string: `-` (or the empty string) is the empty byte string.
+pub fn unhex_field(s: &str) -> Result<Vec<u8>, String> {
+    if s == "-" {
+        Ok(Vec::new())
+    } else {
+        unhex_checked(s)
+    }
+}
+
+/// Hex id without prefix (1..16 hex digits).
+pub fn parse_id(s: &str) -> Result<u64, String> {
+    if s.is_empty() || s.len() > 16 || !s.bytes().all(|c| nibble(c).is_some()) {
+        return Err(format!("bad-id:{}", s));
+    }
+    u64::from_str_radix(s, 16).map_err(|_| format!("bad-id:{}", s))
 }
 
 pub fn catch<F: FnOnce() -> String + std::panic::UnwindSafe>(f: F) -> String {
